@@ -3,17 +3,21 @@ package checks
 import (
 	"encoding/json"
 	"fmt"
+	"os"
+	"path/filepath"
 	"sort"
 	"strings"
 	"time"
 
 	"github.com/github/git-sizer/sizes"
 
+	"verif/cli"
 	"verif/explore"
 	"verif/gen"
 	"verif/inproc"
 	"verif/modelgit"
 	"verif/mrepo"
+	"verif/realgit"
 	"verif/refmodel"
 )
 
@@ -23,7 +27,7 @@ type c07Group struct {
 	name   string
 }
 
-var c07Symbols = []string{"g", "g.s", "g.s.t", "h", "tags.rel", "x.y", "other", "ignored", "g.other", "x.z"}
+var c07Symbols = []string{"g", "g.s", "g.s.t", "h", "tags.rel", "x.y", "other", "ignored", "g.other", "x.z", "tags", "branches"}
 
 // rule sets over the C06 universe (overlapping ranges)
 var c07RuleSets = [][]refmodel.ConfigEntry{
@@ -32,6 +36,7 @@ var c07RuleSets = [][]refmodel.ConfigEntry{
 	{{Key: "include", Value: "refs/heads"}, {Key: "exclude", Value: "refs/heads/foo"}},
 	{{Key: "includeregexp", Value: ".*/foo.*"}},
 	{{Key: "include", Value: "refs/tags"}, {Key: "include", Value: "refs/stash"}},
+	{{Key: "exclude", Value: "refs/tags/bar"}}, // exclude only: everything else (of a built-in group: its own members else)
 }
 
 func c07Config(groups []c07Group, childFirst bool) []refmodel.ConfigEntry {
@@ -309,10 +314,139 @@ func c07Worker(sh *explore.Shard) {
 			sh.C.Nontrivial++
 		}
 	}
+	c07EndToEnd(sh, &idx)
+}
+
+// end-to-end hierarchies: written to a real gitconfig as the user spells them
+// (subsections are case-sensitive, section and variable names are not), read by
+// the real git and the real binary
+var c07E2E = [][]mrepo.ConfigEntry{
+	{{Key: "refgroup.Release.include", Value: "refs/tags"}, {Key: "refgroup.release.include", Value: "refs/heads"}},
+	{{Key: "refgroup.Release.include", Value: "refs/tags"}, {Key: "refgroup.Release.name", Value: "Upper"}, {Key: "refgroup.release.include", Value: "refs/heads/foo"}, {Key: "refgroup.release.sub.include", Value: "refs/heads/foo/bar"}},
+	{{Key: "refgroup.g.include", Value: "refs/heads"}, {Key: "refgroup.g.s.includeRegexp", Value: ".*/foo.*"}, {Key: "refgroup.g.S.include", Value: "refs/heads/foo"}},
+	{{Key: "refgroup.tags.exclude", Value: "refs/tags/bar"}},
+	{{Key: "refgroup.branches.include", Value: "refs/xtags"}, {Key: "refgroup.branches.name", Value: "Branches+"}},
+	{{Key: "RefGroup.g.Include", Value: "refs/heads"}, {Key: "REFGROUP.g.EXCLUDE", Value: "refs/heads/foo"}, {Key: "refgroup.g.Name", Value: "Mixed Case Keys"}},
+	{{Key: "refgroup.my group.include", Value: "refs/heads"}, {Key: "refgroup.my group.name", Value: "with a blank"}},
+	{{Key: "refgroup.a.b.c.include", Value: "refs/remotes"}, {Key: "refgroup.a.B.include", Value: "refs/tags"}},
+}
+
+func c07EndToEnd(sh *explore.Shard, idx *int64) {
+	// the universe minus the names that cannot coexist in a real repository
+	// (refs/heads/foo and refs/heads/foo/bar: directory/file conflict)
+	var universe []string
+	for _, a := range c06Universe {
+		ok := true
+		for _, b := range c06Universe {
+			if strings.HasPrefix(a, b+"/") {
+				ok = false
+			}
+		}
+		if ok {
+			universe = append(universe, a)
+		}
+	}
+	repo := mrepo.New()
+	{
+		lv := gen.AddLeaves(repo)
+		t := repo.AddTree([]mrepo.Entry{{Mode: 0o100644, Name: "a", Child: lv.BlobA}})
+		c := repo.AddCommit(mrepo.CommitSpec{Tree: t, Time: gen.T0, Message: "c\n"})
+		for _, ref := range universe {
+			repo.SetRef(ref, c)
+		}
+	}
+	for ci, cfg := range c07E2E {
+		*idx++
+		if !sh.Mine(*idx) || sh.Expired() {
+			continue
+		}
+		func() {
+			dir := scratch("c07e")
+			defer os.RemoveAll(dir)
+			gd := filepath.Join(dir, "repo.git")
+			if err := realgit.Materialise(repo, gd); err != nil {
+				sh.C.Violate(explore.Violation{Property: "C07", Class: "HARNESS/materialise", Msg: err.Error(), Case: caseJSON(sh.Index(), nil)})
+				return
+			}
+			base := "[core]\n\trepositoryformatversion = 0\n\tbare = true\n"
+			if err := os.WriteFile(filepath.Join(gd, "config"), []byte(base+realgit.ConfigText(cfg)), 0o644); err != nil {
+				panic(err)
+			}
+			// the model's view: section and variable names lower-cased, subsection as written
+			var mcfg []refmodel.ConfigEntry
+			for _, e := range cfg {
+				i, j := strings.IndexByte(e.Key, '.'), strings.LastIndexByte(e.Key, '.')
+				mcfg = append(mcfg, refmodel.ConfigEntry{Key: strings.ToLower(e.Key[:i]) + e.Key[i:j] + strings.ToLower(e.Key[j:]), Value: e.Value})
+			}
+			forest, err := refmodel.NewForest(mcfg)
+			if err != nil {
+				panic(err)
+			}
+			for si, sel := range c07Selections {
+				args := append([]string{"--json", "--json-version=1", "--no-progress"}, sel.argv...)
+				if sel.root {
+					args = append(args, string(repo.Refs[0].ID))
+				}
+				res := cli.Run(gd, "", nil, 60*time.Second, args...)
+				sh.C.Evals++
+				sh.C.Validated++
+				mk := func(class, msg string) {
+					sh.C.Violate(explore.Violation{Property: "C07", Class: class, Msg: fmt.Sprintf("%s [real binary, real git, gitconfig #%d %v, args %q]", msg, ci, cfg, args),
+						Case: caseJSON(sh.Index(), map[string]any{"config": fmt.Sprint(cfg), "selection": si})})
+				}
+				if res.Exit != 0 || res.TimedOut {
+					mk("error", fmt.Sprintf("exit %d, stderr %q", res.Exit, res.Stderr))
+					continue
+				}
+				var out struct {
+					Count  uint64            `json:"reference_count"`
+					Groups map[string]uint64 `json:"reference_groups"`
+				}
+				if err := json.Unmarshal(res.Stdout, &out); err != nil {
+					mk("render", "JSON v1 invalid: "+err.Error())
+					continue
+				}
+				want := map[string]uint64{}
+				for _, ref := range universe {
+					gs, bs := forest.Tally(sel.rules, sel.root, ref)
+					for _, s := range gs {
+						want[s]++
+					}
+					for _, s := range bs {
+						want[s]++
+					}
+				}
+				if out.Count != uint64(len(universe)) {
+					mk("tally", fmt.Sprintf("reference_count = %d, repository has %d references", out.Count, len(universe)))
+				}
+				keys := map[string]bool{}
+				for k := range want {
+					keys[k] = true
+				}
+				for k := range out.Groups {
+					keys[k] = true
+				}
+				var ks []string
+				for k := range keys {
+					ks = append(ks, k)
+				}
+				sort.Strings(ks)
+				var sig strings.Builder
+				for _, k := range ks {
+					fmt.Fprintf(&sig, "%s=%d,", k, out.Groups[k])
+					if out.Groups[k] != want[k] {
+						mk("tally", fmt.Sprintf("group %q: reported %d, expected %d", k, out.Groups[k], want[k]))
+					}
+				}
+				sh.C.Outcome("e2e:" + sig.String())
+				sh.C.Nontrivial++
+			}
+		}()
+	}
 }
 
 func init() {
 	Registry["C07"] = &Check{Level: "exploration", Worker: c07Worker, QuickBudget: 60 * time.Second, ThoroughBudget: 10 * time.Minute,
-		Rule:        "all refgroup forests of <=2 (quick) / <=3 (thorough) user groups over 10 symbol shapes (nested, implicit parents, augmenting a built-in, named other/ignored/g.other) x 5 rule sets x display name, each in parent-first and child-first config order, x 4 selections, plus nesting depth 1..20 with implicit and explicit parents; real RefGroupBuilder + in-process scan of a 20-reference universe; JSON v1 tallies compared with the recursive definition of the statement, JSON v2 and the verbose table must be produced and agree. non-trivial = forests with >= 2 user groups and every nesting-depth case",
+		Rule:        "all refgroup forests of <=2 (quick) / <=3 (thorough) user groups over 12 symbol shapes (nested, implicit parents, augmenting a built-in, rules on the built-in groups tags/branches themselves, named other/ignored/g.other) x 6 rule sets (incl. exclude-only) x display name, each in parent-first and child-first config order, x 4 selections, plus nesting depth 1..20 with implicit and explicit parents; real RefGroupBuilder + in-process scan of a 20-reference universe; JSON v1 tallies compared with the recursive definition of the statement, JSON v2 and the verbose table must be produced and agree; plus 8 hierarchies written to a real gitconfig as the user spells them (symbols differing only in case, mixed-case section/variable names, blanks, rules on built-in groups) x 4 selections through the real binary and real git. non-trivial = forests with >= 2 user groups and every nesting-depth case",
 		Assumptions: []string{"refgroup configuration is served by a fake Configger implementing GetConfig's documented contract (C15 owns the real parser)"}}
 }
